@@ -242,7 +242,7 @@ theorem whole_maildirMove (env : PEnv) {H : Nat} {w : World} {src dst : Maildir}
       · exact WholeMovePost.unchanged hL hH m1
       · rename_i fl _
         unfold gennameStart
-        refine wp_bind_mono (whole_genname env dst (some fl) hdh hpd hdd hH 4096 _ m1) ?_
+        refine wp_bind_mono (whole_genname env dst (some fl) hdh hpd hdd hH gennameAttempts _ m1) ?_
         rintro g w2 ⟨hnone, hsome⟩
         cases g with
         | none => exact WholeMovePost.unchanged hL hH (hnone rfl)
